@@ -1,10 +1,355 @@
-"""C19 concrete corpus part (sites / where / refusals, real cursor forwarding). Filled in with the program corpus."""
-WITNESSES = []
+"""
+C19, program-level part — CONCRETE support (no symbolic quantity: programs, strategies and indices are finite objects; the
+deciding step here is enumeration of a bounded corpus, labelled as such in the evidence; the solver-decided part of C19 is
+the forwarding arithmetic in c19.py).
+
+For each corpus program and each aimable strategy configuration:
+  listing     every candidate point (an independently enumerated loop / call) is listed as a site or explained as a refusal;
+  index       for every j < k: strategy(f, where=j) equals strategy(f, where=sites[j]) (the j-th listed site is the one
+              rewritten) and the program changed; every statement that is neither the site, nor above, nor beneath it
+              forwards to a statement with the same text (only it);
+  rejection   where = k, k + 3, -1 is rejected;
+  all         where=None: every listed site forwards to a changed statement or a reference error, every statement unrelated to
+              all sites forwards to the same text;
+  cursor      a cursor to every statement, forwarded across sequences of 1..3 strategies, resolves to a statement that still
+              carries one of the original statement's markers (every statement of the corpus carries a unique literal >= 100)
+              or raises a reference error — never an unrelated statement, never another exception.
+"""
+WITNESSES = ['prog-sites-listed', 'prog-index-checked', 'prog-index-rejected', 'prog-cursor-forwarded', 'prog-cursor-reference-error']
+
+PROGRAMS = {}
+
+
+def P(name, src, entry='f'):
+    PROGRAMS[name] = dict(name=name, src=src, entry=entry)
+
+
+P('nests', '''
+@fp.fpy
+def f(xs: list[fp.Real], n: fp.Real) -> fp.Real:
+    acc = 101
+    for x in xs:
+        acc = acc + x * 102
+    for i in range(4):
+        for j in range(2):
+            for k in range(2):
+                acc = acc + 103
+            acc = acc * 104
+    for i in range(6):
+        for j in range(2):
+            for k in range(2):
+                acc = acc + 105
+            acc = acc * 106
+    return acc + 107
+''')
+
+P('guarded', '''
+@fp.fpy
+def f(xs: list[fp.Real], ys: list[fp.Real], n: fp.Real) -> fp.Real:
+    a = 201
+    if n > 0:
+        for x in xs:
+            a = a + x + 202
+        a = a * 203
+    for y in ys:
+        a = a + y + 204
+    b = a + 205
+    return b + 206
+''')
+
+P('calls', '''
+@fp.fpy
+def sq(v: fp.Real) -> fp.Real:
+    return v * v
+
+@fp.fpy
+def slot(i: fp.Real) -> fp.Real:
+    return i + 0
+
+@fp.fpy
+def f(x: fp.Real) -> fp.Real:
+    i = 0
+    ys = [x + 301, x + 302]
+    ys[slot(i)] = sq(x) + 303
+    t = sq(x + 304) + slot(305)
+    for k in range(2):
+        t = t + sq(t + 306)
+    return ys[0] + t + 307
+''')
+
+P('whiles', '''
+@fp.fpy
+def f(x: fp.Real) -> fp.Real:
+    t = x + 401
+    i = 0
+    while i < 3:
+        t = t + 402
+        i = i + 1
+    j = 0
+    while j < 2:
+        k = 0
+        while k < 2:
+            t = t * 403
+            k = k + 1
+        j = j + 1
+    for m in range(4):
+        t = t + 404
+    return t + 405
+''')
+
+P('branches', '''
+@fp.fpy
+def f(xs: list[fp.Real], c: fp.Real) -> fp.Real:
+    s = 501
+    if c > 0:
+        for x in xs:
+            s = s + x * 502
+    else:
+        for x in xs:
+            if x > c:
+                s = s - x + 503
+        s = s + 504
+    with fp.REAL:
+        for x in xs:
+            s = s + 505
+    return s + 506
+''')
+
+
+def configs():
+    """name -> (strategy function for listings, listing kwargs, apply(f, where), candidate statement / expression class name)"""
+    from fpy2 import strategies as st
+    return {
+        'unroll_for': (st.unroll_for, {}, lambda f, w: st.unroll_for(f, w, 1), 'ForStmt'),
+        'unroll_for2': (st.unroll_for, {}, lambda f, w: st.unroll_for(f, w, 2), 'ForStmt'),
+        'split': (st.split, {'factor': 2}, lambda f, w: st.split(f, 2, w), 'ForStmt'),
+        'unroll_while': (st.unroll_while, {}, lambda f, w: st.unroll_while(f, w, 1), 'WhileStmt'),
+        'inline': (st.inline, {}, lambda f, w: st.inline(f, w), 'Call'),
+    }
+
+
+SEQUENCES = [
+    ['unroll_for:None'], ['unroll_for:0', 'unroll_for:0'], ['split:None', 'unroll_for:None'], ['unroll_while:None', 'unroll_for:None'], ['inline:None', 'unroll_for:None'],
+    ['unroll_for:1', 'split:0', 'unroll_while:None'], ['split:1', 'inline:0'], ['unroll_for2:None', 'unroll_while:0'], ['inline:1', 'split:None', 'unroll_for:0'],
+]
 
 
 def tasks(tier, seed):
-    return []
+    ts = []
+    for p in PROGRAMS:
+        for c in configs_names():
+            ts.append(dict(kind='prog', name='prog/sites/%s/%s' % (p, c), prog=p, part='sites', cfg=c, cost=2))
+        for k, seq in enumerate(SEQUENCES):
+            ts.append(dict(kind='prog', name='prog/cursor/%s/%d' % (p, k), prog=p, part='cursor', seq=seq, cost=2))
+    return ts
+
+
+def configs_names():
+    return ['unroll_for', 'unroll_for2', 'split', 'unroll_while', 'inline']
+
+
+# ---- helpers -------------------------------------------------------------------------------------------------------------------
+def load(pname):
+    from . import progs
+    p = PROGRAMS[pname]
+    g = progs.load(p['src'] + '# c19 ' + pname)
+    return g[p['entry']]
+
+
+def markers(text):
+    import re
+    return {int(m) for m in re.findall(r'(?<![\\w.])(\\d{3})(?![\\w.])', text) if int(m) >= 100}
+
+
+def stmt_text(s):
+    try:
+        return s.format()
+    except Exception:  # noqa
+        return repr(s)
+
+
+def all_stmt_cursors(f):
+    from fpy2.transform.cursor import StmtCursor
+    from fpy2.transform.path import walk_stmts
+    return [StmtCursor(f.ast, path) for path, _ in walk_stmts(f.ast)]
+
+
+def _prefix(a, b):
+    """is statement path a at or above statement path b?"""
+    from fpy2.transform.path import StmtPath, SubBlock, FuncBody
+    chain = []
+    p = b
+    while isinstance(p, StmtPath):
+        chain.append(p)
+        blk = p.parent
+        p = blk.parent if isinstance(blk, SubBlock) else None
+    return any(x == a for x in chain)
+
+
+def related(a, b):
+    return _prefix(a, b) or _prefix(b, a)
+
+
+def site_stmt_path(cur):
+    from fpy2.transform.cursor import ExprCursor
+    return cur.stmt().path if isinstance(cur, ExprCursor) else cur.path
+
+
+def candidates(f, clsname):
+    """independent enumeration of the points a strategy considers: loops by statement class, calls of FPy functions"""
+    from fpy2.transform.path import walk_stmts, walk_exprs
+    import fpy2 as fp
+    if clsname == 'Call':
+        return [path for path, e in walk_exprs(f.ast) if type(e).__name__ == 'Call' and isinstance(getattr(e, 'fn', None), fp.Function)]
+    return [path for path, s in walk_stmts(f.ast) if type(s).__name__ == clsname]
+
+
+def check_sites(pname, cname):
+    """returns (problems, witness counts); a problem = dict(key, detail)"""
+    from fpy2 import strategies as st
+    from fpy2.transform.error import TransformReferenceError
+    f = load(pname)
+    sfn, kw, apply, cls = configs()[cname]
+    problems = []; wit = {w: 0 for w in WITNESSES}
+
+    def bad(key, detail):
+        problems.append(dict(key='%s:%s:%s' % (pname, cname, key), detail=str(detail)[:300]))
+    try:
+        sites = st.sites(sfn, f, **kw)
+        refs = st.refusals(sfn, f, **kw)
+    except Exception as ex:  # noqa
+        bad('listing-raised', repr(ex)); return problems, wit
+    k = len(sites)
+    wit['prog-sites-listed'] += 1
+    # listing: every candidate is a site or a refusal
+    spaths = [c.path for c in sites]
+    rpaths = [c.path for c, _ in refs]
+    for cand in candidates(f, cls):
+        if cand not in spaths and cand not in rpaths:
+            bad('candidate-unaccounted', 'candidate %s is neither listed as a site nor explained as a refusal' % (cand,))
+    base = f.format()
+    cursors = all_stmt_cursors(f)
+    texts = {id(c): stmt_text(c.resolve()) for c in cursors}
+    results = {}
+    for j in range(k):
+        try:
+            gj = apply(f, j)
+            gc = apply(f, sites[j])
+        except Exception as ex:  # noqa
+            bad('listed-site-not-rewritten', 'where=%d of %d listed sites raised %r' % (j, k, ex)); continue
+        wit['prog-index-checked'] += 1
+        results[j] = gj
+        # a statement cursor takes every site at or beneath it (documented), an index exactly one: they must agree when no other
+        # listed site lies beneath the j-th one
+        spj = site_stmt_path(sites[j])
+        nested = any(i != j and _prefix(spj, site_stmt_path(sites[i])) and (type(sites[j]).__name__ != 'ExprCursor') for i in range(k))
+        if not nested and gj.format() != gc.format():
+            bad('index-vs-cursor', 'where=%d and where=sites[%d] rewrite different sites' % (j, j))
+        if gj.format() == base:
+            bad('site-not-rewritten', 'where=%d left the program unchanged' % j)
+        sp = site_stmt_path(sites[j])
+        for c in cursors:
+            if related(c.path, sp):
+                continue
+            try:
+                r = gj.forward(c).resolve()
+            except TransformReferenceError:
+                bad('untouched-statement-lost', 'where=%d: statement %r (unrelated to the site) no longer resolves' % (j, texts[id(c)][:50])); continue
+            except Exception as ex:  # noqa
+                bad('forward-raised', 'where=%d: %r' % (j, ex)); continue
+            if stmt_text(r) != texts[id(c)]:
+                bad('only-it', 'where=%d: unrelated statement %r became %r' % (j, texts[id(c)][:60], stmt_text(r)[:60]))
+    for w in (k, k + 3, -1):
+        try:
+            g = apply(f, w)
+        except Exception:  # noqa
+            wit['prog-index-rejected'] += 1
+            continue
+        bad('index-not-rejected', 'where=%d with %d listed sites was accepted' % (w, k))
+    if k:
+        try:
+            ga = apply(f, None)
+        except Exception as ex:  # noqa
+            bad('all-raised', repr(ex)); return problems, wit
+        spl = [site_stmt_path(s) for s in sites]
+        for j, s in enumerate(sites):
+            c = s.stmt() if hasattr(s, 'stmt') and callable(getattr(s, 'stmt')) and type(s).__name__ == 'ExprCursor' else s
+            try:
+                r = ga.forward(c).resolve()
+            except TransformReferenceError:
+                continue
+            except Exception as ex:  # noqa
+                bad('forward-raised', 'where=None: %r' % ex); continue
+            if stmt_text(r) == stmt_text(c.resolve()) and not any(related(spl[i], spl[j]) for i in range(k) if i != j):
+                bad('all-missed-a-site', 'where=None left listed site %d unchanged' % j)
+        for c in cursors:
+            if any(related(c.path, sp) for sp in spl):
+                continue
+            try:
+                r = ga.forward(c).resolve()
+            except TransformReferenceError:
+                bad('untouched-statement-lost', 'where=None: statement %r no longer resolves' % texts[id(c)][:50]); continue
+            except Exception as ex:  # noqa
+                bad('forward-raised', 'where=None: %r' % ex); continue
+            if stmt_text(r) != texts[id(c)]:
+                bad('only-it', 'where=None: unrelated statement %r became %r' % (texts[id(c)][:60], stmt_text(r)[:60]))
+    return problems, wit
+
+
+def check_cursor(pname, seq):
+    from fpy2.transform.error import TransformReferenceError
+    from fpy2.strategies import TransformDeclined, TransformError
+    f = load(pname)
+    problems = []; wit = {w: 0 for w in WITNESSES}
+    cursors = all_stmt_cursors(f)
+    marks = {id(c): markers(stmt_text(c.resolve())) for c in cursors}
+    h = f
+    cf = configs()
+    for step in seq:
+        nm, _, w = step.partition(':')
+        w = None if w == 'None' else int(w)
+        try:
+            h = cf[nm][2](h, w)
+        except (TransformDeclined, TransformError, ValueError, IndexError, TypeError):
+            break             # the step does not apply to this program (no such site): the prefix applied so far is what is checked
+    for c in cursors:
+        if not marks[id(c)]:
+            continue
+        try:
+            r = h.forward(c).resolve()
+        except TransformReferenceError:
+            wit['prog-cursor-reference-error'] += 1
+            continue
+        except Exception as ex:  # noqa
+            problems.append(dict(key='%s:cursor:%s:raised' % (pname, '>'.join(seq)), detail='forwarding %r raised %r' % (stmt_text(c.resolve())[:50], ex))); continue
+        wit['prog-cursor-forwarded'] += 1
+        if not (markers(stmt_text(r)) & marks[id(c)]):
+            problems.append(dict(key='%s:cursor:%s:unrelated' % (pname, '>'.join(seq)),
+                                 detail='cursor to %r resolves to the unrelated statement %r' % (stmt_text(c.resolve())[:60], stmt_text(r)[:60])))
+    return problems, wit
+
+
+def run_case(task):
+    if task['part'] == 'sites':
+        return check_sites(task['prog'], task['cfg'])
+    return check_cursor(task['prog'], task['seq'])
 
 
 def run_task(task):
-    raise NotImplementedError
+    problems, wit = run_case(task)
+    tt = {k: v for k, v in task.items() if k not in ('name', 'cost')}
+    seen = set(); cex = []
+    for pr in problems:
+        if pr['key'] in seen:
+            continue
+        seen.add(pr['key'])
+        cex.append({'case': {'task': tt, 'inputs': {'key': pr['key']}, 'info': pr['detail']}})
+    n = sum(wit.values())
+    return dict(paths=0, requires=0, cex=cex, samples=[{'task': task['name'], 'concrete': True, 'checks': n}], witness=wit, extra={'diff_runs': n, 'concrete_site_and_cursor_checks': n})
+
+
+def replay(case):
+    problems, _ = run_case(case['task'])
+    want = case['inputs'].get('key')
+    mine = [p for p in problems if p['key'] == want]
+    return {'violates': bool(mine), 'observed': mine[:3] or 'not reproduced', 'key': 'prog:' + str(want)}
